@@ -98,6 +98,9 @@ class ExprMixin:
             # read of a local before assignment on this path
             exc.append((st, imp_value("UnboundLocalError", e.lineno, n)))
             return []
+        if n not in self.module_names:
+            exc.append((st, imp_value("NameError", e.lineno, n)))
+            return []
         return [(st, V(GLOB, n))]
 
     def ev_Attribute(self, e, st, exc, expect):
